@@ -43,7 +43,7 @@ def run(ctx):
                             "scenario chain; a sample stratified by (class, kind, call site, SQL) — every distinct call site before any is repeated — each run = replay to the "
                             "previous height, SIGKILL at the point, re-open in a fresh process, compare with the reference state of the recorded sync height, resume to the tip, "
                             "compare again; every crash point is a distinct non-trivial case")
-    ctx.proof_stage(extra_targets=["Lemmas/SyncLemmas.vo", "Lemmas/SitesLemmas.vo"])
+    ctx.proof_stage(extra_targets=["Lemmas/SyncLemmas.vo", "Lemmas/SitesC02.vo"])
     crash(ctx, ["corners"] if ctx.tier == "quick" else ["corners", "eras", "staking", "bank"], 64 if ctx.tier == "quick" else 600)
 
 
